@@ -3,6 +3,11 @@ C03 — BoC serialisation round-trips for every DAG and option set.
 Oracle: root.to_boc(options) parsed back has identical hash AND identical structure (bits, type, refs, recursively)
 as the independent reference tree the cells were built from; bytes / hex (lower, upper) / base64 forms and the
 Cell / Slice / Builder entry points all give equal results.
+temporaries sub-checks: 2-3 bags of the SAME length and other content (same tree shape and cell sizes, 1 cell .. 8000 cells / 1 MB;
+texts of >= 2^20 characters) follow each other; every library tree is built, serialised and dropped before the next is built, and
+every input object (private bytes copy, hex / HEX / base64 text) is dropped before the next is made, so that the next object gets
+the address of the dead one (counted in classes temporaries:*); one living object may go through two entry points. Oracle as above:
+each parse yields the root of the reference tree of the bag handed in.
 Not asserted: cache bits without an index (not one of the 6 valid option sets). Builder entry point only for
 ordinary roots (exotic roots are refused by design: 'cant convert exotic cell to builder').
 """
@@ -16,7 +21,9 @@ RULE = ('case = DAG spec (ordinary or exotic, bottom-up, with sharing) serialise
         '(idx, crc, idx+crc, idx+cache, idx+cache+crc, none), parsed through 3 entry points x 4 input forms. boundary sub-check: '
         '255/256/257-cell DAGs, payloads of 254..257 bytes, depth-1023 chain and ladder (thorough: 65535..65537 cells / bytes). '
         'non-trivial = more than one cell and (sharing or non-default options — every case exercises all option sets, so: more '
-        'than one cell); distinct = distinct spec')
+        'than one cell); distinct = distinct spec. temporaries: case = (cell count, cell sizes, arity, 2-3 content tags, option set, '
+        'program of steps (bag, input form, 1-2 entry points)); grid of bag lengths 0.5 KB .. 1 MB x 4 forms plus random programs over '
+        'bags of 1..120 cells; every input object and every tree dies before the next of the same size is made')
 ASSUMPTIONS = ['harness/ref/refcell.py for the structure/hash the parse must reproduce', 'python base64 / bytes.hex']
 
 
@@ -139,10 +146,169 @@ def nt(case):
     return len(case['spec']) > 1
 
 
+# -- temporaries: every input (and every tree) dies before the next one of the same size is made -------------------------------------
+
+def family_spec(n, sizes, arity, tag):
+    """n-cell `arity`-ary tree (arity 1: a chain); cell i has sizes[i % len(sizes)] data bits. The same n / sizes / arity give the
+    same shape and the same bag LENGTH for every tag, but other data bits in every cell"""
+    spec = []
+    for i in range(n):
+        h = n - 1 - i
+        refs = [n - 1 - c for c in range(arity * h + 1, arity * h + arity + 1) if c < n]
+        spec.append({'k': 'o', 'b': [sizes[i % len(sizes)], 2, tag * 1000003 + i], 'r': refs})
+    return spec
+
+
+# one input object per call, made from the bag that is kept; nobody else holds it
+TEMP_FORMS = {
+    'bytes': lambda boc: bytes(memoryview(boc)),
+    'hex': lambda boc: boc.hex(),
+    'HEX': lambda boc: boc.hex().upper(),
+    'base64': lambda boc: base64.b64encode(boc).decode(),
+}
+TEMP_ENTRIES = ('Cell.one_from_boc', 'Cell.from_boc', 'Slice.one_from_boc', 'Builder.one_from_boc', 'Boc.deserialize')
+
+
+def _entry(name):
+    from pytoniq_core.boc.cell import Cell
+    from pytoniq_core.boc.slice import Slice
+    from pytoniq_core.boc.builder import Builder
+    from pytoniq_core.boc.deserialize import Boc
+    return {'Cell.one_from_boc': lambda d: Cell.one_from_boc(d), 'Cell.from_boc': lambda d: Cell.from_boc(d)[0],
+            'Slice.one_from_boc': lambda d: Slice.one_from_boc(d).to_cell(), 'Builder.one_from_boc': lambda d: Builder.one_from_boc(d).end_cell(),
+            'Boc.deserialize': lambda d: Boc(d).deserialize()[0]}[name]
+
+
+def _serialise_temporary_tree(cells, opts):
+    """the library tree is built, serialised and dropped inside this frame: the next tree is built where this one lived"""
+    lib = dag.lib_from_ref(cells, 'builder')
+    addr = {id(c) for c in lib}
+    ok, boc = call(lib[-1].to_boc, *opts)
+    del lib
+    return addr, ok, boc
+
+
+def _parse_temporary(form, boc, entries):
+    """the input object lives in this frame only; it is gone when the next one is made"""
+    data = TEMP_FORMS[form](boc)
+    addr = id(data)
+    out = []
+    for e in entries:                   # the same living object handed to one or two entry points: legitimately the same bag
+        ok, res = call(_entry(e), data)
+        out.append((e, ok, res))
+        if not ok:
+            break
+    del data
+    return addr, out
+
+
+def check_temporaries(case):
+    """History: bags of the SAME length and other content follow each other, and each input object (bytes copy, hex / base64 text)
+    - and each tree on the serialising side - is dropped before the next is made, as when bags are read line by line from a file
+    or a socket. The allocator then hands the next object the address of the dead one; whatever the library remembers about 'this
+    object' (by id(), by address, by a weak reference) now describes another bag. Oracle: every parse yields the root (hash and
+    structure) of the reference tree of the bag that was handed in."""
+    from harness.core import note
+    opts = tuple(bool(x) for x in case['opts'])
+    trees = [dag.build_ref(family_spec(case['n'], case['sizes'], case['arity'], tag)) for tag in case['tags']]
+    bocs, addrs = [], []
+    for cells in trees:                 # nothing else is allocated between one library tree and the next
+        addr, ok, boc = _serialise_temporary_tree(cells, opts)
+        if not ok:
+            return Fail(f'temporaries/to_boc-raises/{type(boc).__name__}', f'{exc_sig(boc)}: {boc!r}')
+        if not isinstance(boc, (bytes, bytearray)):
+            return Fail('temporaries/to_boc/not-bytes', repr(type(boc)))
+        bocs.append(bytes(boc))
+        addrs.append(addr)
+    trees = [cells[-1] for cells in trees]
+    note('temporaries:cells-built-at-the-address-of-a-dead-cell', sum(len(a & b) for a, b in zip(addrs, addrs[1:])))
+    hashes = [t.repr_hash() for t in trees]
+    from pytoniq_core.boc.cell import Cell
+    for k, boc in enumerate(bocs):      # what each short-lived tree was serialised to denotes that tree
+        ok, parsed = call(Cell.one_from_boc, boc)
+        if not ok:
+            return Fail(f'temporaries/parse-raises/bag-of-a-short-lived-tree/{type(parsed).__name__}', f'bag {k}: {exc_sig(parsed)}: {parsed!r}')
+        if parsed.hash != hashes[k] or rc.structurally_equal_lib(trees[k], parsed):
+            return Fail('temporaries/roundtrip-of-a-short-lived-tree-differs', f'bag {k} of tags {case["tags"]}, n={case["n"]}: '
+                        f'{parsed.hash.hex()} vs {hashes[k].hex()} {rc.structurally_equal_lib(trees[k], parsed)}')
+    del parsed
+    last = None
+    for k, form, entries in case['steps']:
+        k %= len(bocs)
+        addr, out = _parse_temporary(form, bocs[k], entries)
+        note('temporaries:input-at-the-address-of-the-dead-one' if addr == last else 'temporaries:input-at-a-new-address')
+        last = addr
+        for e, ok, parsed in out:
+            def what():         # (made only when something is wrong: a string of about the input's size would take the dead input's place)
+                return f'{form} form of bag {k} ({len(bocs[k])} bytes, {case["n"]} cells) through {e}, steps={case["steps"]}'
+            if not ok:
+                return Fail(f'temporaries/parse-raises/{form}/{type(parsed).__name__}', f'{what()}: {exc_sig(parsed)}: {parsed!r}')
+            if parsed.hash != hashes[k]:
+                other = [j for j, h in enumerate(hashes) if h == parsed.hash]
+                if other:
+                    return Fail(f'temporaries/parsed-to-an-earlier-bag-of-the-same-length/{form}',
+                                f'{what()}: got the root of bag {other[0]}, whose input object was dropped before this one was made')
+                return Fail(f'temporaries/hash-differs/{form}', f'{what()}: {parsed.hash.hex()} vs {hashes[k].hex()}')
+            diff = rc.structurally_equal_lib(trees[k], parsed)
+            if diff:
+                return Fail(f'temporaries/structure-differs/{form}', f'{what()}: {diff}')
+        del out, parsed
+    return None
+
+
+def _steps(nbags, form, length, double_at=2):
+    """bags 0,1,2,.. in turn, then back and forth; entry points in rotation; one step hands the living object to two entry points"""
+    seq = (list(range(nbags)) + list(range(nbags - 1, -1, -1)) + [0, 1] * 3)[:length]
+    return [[k, form, [TEMP_ENTRIES[j % 5]] + ([TEMP_ENTRIES[(j + 1) % 5]] if j == double_at else [])] for j, k in enumerate(seq)]
+
+
+def enum_temporaries(tier):
+    sizes = [1016, 1016, 1023, 1009]
+    # bag lengths: ~0.5 / 5 / 70 / 140 KB (below and above 64 KiB and the allocator's 128 KiB), then texts of >= 2^20 characters
+    for n in (3, 40, 520, 1040):
+        for form in TEMP_FORMS:
+            for opts in ([1, 1, 0], [0, 0, 0]) if n < 500 else ([1, 1, 0],):
+                yield {'n': n, 'sizes': sizes, 'arity': 4, 'tags': [1, 2, 3], 'opts': opts, 'steps': _steps(3, form, 8), 'name': f'cells={n}/{form}'}
+    big = [(4100, 'hex'), (4100, 'HEX'), (6200, 'base64'), (8000, 'bytes')]
+    if tier != 'quick':
+        big += [(n, f) for n in (8000, 16500) for f in TEMP_FORMS]
+    for n, form in big:
+        yield {'n': n, 'sizes': sizes, 'arity': 4, 'tags': [1, 2], 'opts': [1, 1, 0], 'steps': _steps(2, form, 4, double_at=3), 'name': f'cells={n}/{form}'}
+
+
+def strat_temporaries(tier):
+    step = st.tuples(st.integers(0, 2), st.sampled_from(sorted(TEMP_FORMS)),
+                     st.lists(st.sampled_from(TEMP_ENTRIES), min_size=1, max_size=2)).map(list)
+    return st.fixed_dictionaries({
+        'n': st.one_of(st.integers(1, 12), st.integers(1, 120)), 'arity': st.integers(1, 4),
+        'sizes': st.lists(st.one_of(st.integers(1, 1023), st.sampled_from([8, 256, 1016, 1023])), min_size=1, max_size=4),
+        'tags': st.lists(st.integers(0, 999), min_size=2, max_size=3, unique=True),
+        'opts': st.sampled_from(boccases.OPTSETS).map(list),
+        'steps': st.lists(step, min_size=2, max_size=10)})
+
+
+def classify_temporaries(case):
+    n = case['n']
+    yield 'nodes=' + ('1' if n == 1 else '2-8' if n <= 8 else '9-32' if n <= 32 else '33-254' if n < 255 else '255+')
+    for f in sorted({s[1] for s in case['steps']}):
+        yield 'form=' + f
+    if any(len(s[2]) > 1 for s in case['steps']):
+        yield 'one-object-through-two-entry-points'
+    if any(a[0] % len(case['tags']) != b[0] % len(case['tags']) and a[1] == b[1] for a, b in zip(case['steps'], case['steps'][1:])):
+        yield 'another-bag-of-the-same-length-in-the-same-form-next'
+    if 'name' in case:
+        yield case['name']
+
+
 SUBCHECKS = [
     Sub('boundary-sizes', check, enum=enum_boundary, classify=classify, nontrivial=nt, shards=(16, 24), case_cpu_s=600,
         note='exact cell-count / payload-size boundaries of the size and offset fields; depth-1023 chain and ladder'),
     Sub('dags-x-6-optionsets', check, strategy=strat, classify=classify, nontrivial=nt, n=(800, 15000), shards=(16, 32)),
+    Sub('temporaries-of-equal-size', check_temporaries, enum=enum_temporaries, classify=classify_temporaries, shards=(12, 16), case_cpu_s=300,
+        note='2-3 bags of the same length and other content (0.5 KB .. 1 MB; texts of >= 2^20 characters) parsed in turn, every input '
+             'object (bytes copy / hex / HEX / base64 text) and every serialised tree dropped before the next one is made; classes '
+             'temporaries:* count how often the next object really got the address of the dead one'),
+    Sub('temporaries-random', check_temporaries, strategy=strat_temporaries, classify=classify_temporaries, n=(100, 4000), shards=(4, 16)),
 ]
 
 # the same generated cases, several at a time, checked by threads that run at the same time (core.run_overlapping): per-call state
